@@ -22,7 +22,7 @@ Proof. exact C01_without_dependency_hypothesis_refuted. Qed.
 Print Assumptions C01_hypothesis_needed.
 
 (* for flat rule sets (proofs/Frame.v: top-level names, field chains and literal selectors F.X, F.In.X, F.Arr[2], F.M["k"];
-   constants, negation, parentheses, binary operators, the value built-ins (Max, Min, Abs, IsZero, IsNil); calls of admitted methods - side-effect free, independent of the
+   constants, negation, parentheses, binary operators, the value built-ins (Max, Min, Abs, IsZero, IsNil); calls (also chained) of admitted methods - side-effect free, independent of the
    receiver's state, not the built-in Len - on such variables; assignments and control built-ins as actions) both hypotheses
    on the rules are theorems *)
 Theorem C01_flat : forall meth panics_inside mutating
